@@ -622,7 +622,7 @@ def run_three(ctx, lines, drv, interp, model, asan_drv=None):
     env = {"ASAN_OPTIONS": "exitcode=77:detect_leaks=0:abort_on_error=0"}
     rc1, nout, nerr = vlib.sh([asan_drv or drv], input=text, timeout=3000, env=env)
     rc2, lout, lerr = vlib.run_lua(os.path.join(vlib.VERIF, "harness", ID, "ref.lua"), input=text, interp=interp, timeout=3000)
-    rc3, mout, merr = vlib.sh([model], input=text, timeout=3000)
+    rc3, mout, merr = vlib.sh([model], input=text, timeout=900)
     nl, ll, ml = nout.split("\n"), lout.split("\n"), mout.split("\n")
     if rc1 != 0 or rc2 != 0 or rc3 != 0 or min(len(nl), len(ll), len(ml)) < len(lines):
         raise RuntimeError("harness run failed: driver rc=%s lua rc=%s model rc=%s lines %d/%d/%d of %d: %s %s" %
